@@ -113,6 +113,34 @@ func runC17(a *Analyzer, r *Results) {
 	if nLoops == 0 {
 		r.Undecided = append(r.Undecided, "ConsumeCacheMessages has no loop over the cached messages (anchor)")
 	}
+	// F7.handler: the handler field is set before the drain and never after (a nested drain's newer handler must survive)
+	nStore := 0
+	for _, b := range fn.Blocks {
+		for _, in := range b.Instrs {
+			st, ok := in.(*ssa.Store)
+			if !ok || a.addrLoc(st.Addr) != "rawmessagesfilter.RawMessageFilter.consensusMessagesHandler" {
+				continue
+			}
+			nStore++
+			ok2 := true
+			for _, l := range li.Loops {
+				if l.Coll != nil && strings.Contains(c.Term(l.Coll).Key(), cache.Key()) {
+					if !b.Dominates(l.Header) || l.Body[b] {
+						ok2 = false
+					}
+				}
+			}
+			for _, lk := range reads {
+				if !b.Dominates(lk.Block()) {
+					ok2 = false
+				}
+			}
+			r.Check("F7.handler", pr, "the new term's handler is installed before the cache is drained and is not written after it (a delivery may complete the height and install a newer handler that must survive)", "ConsumeCacheMessages", a.P.InstrPos(in), ok2, "the handler field is written after (or inside) the drain", "Re")
+		}
+	}
+	if nStore == 0 {
+		r.Check("F7.handler", pr, "the new term's handler is installed before the cache is drained and is not written after it (a delivery may complete the height and install a newer handler that must survive)", "ConsumeCacheMessages", a.P.Pos(fn.Pos()), false, "ConsumeCacheMessages never installs the handler", "Re")
+	}
 }
 
 // drainGuard: the call's block is dominated by an If inside the loop comparing a State.Height() call made inside the
